@@ -30,6 +30,10 @@ type Property struct {
 
 var registry = map[string]*Property{}
 
+// Oneshot, if set, is the body of `mc oneshot`: it executes exactly one case read from stdin in
+// a fresh process (used as a history-free reference by C11).
+var Oneshot func()
+
 func Register(p *Property) { registry[p.ID] = p }
 
 type KnownFinding struct {
@@ -115,6 +119,12 @@ func Main() {
 			usage()
 		}
 		os.Exit(replay(os.Args[2], true))
+	case "oneshot":
+		if Oneshot == nil {
+			usage()
+		}
+		Oneshot()
+		os.Exit(0)
 	case "list":
 		ids := sortedKeys(registry)
 		fmt.Println(strings.Join(ids, " "))
@@ -411,7 +421,10 @@ func coordinate(id, tier string) int {
 		v.Path = path
 		writeJSON(path, v)
 		// reproduce 5/5 through the replay path before believing it
-		if !strings.HasPrefix(sig, "worker-death:") && os.Getenv("VERIF_NO_RECHECK") == "" {
+		// a report of the race detector (free-running pass) is sound by itself and depends on the
+		// OS schedule: it is not required to reproduce
+		selfEvident := strings.HasPrefix(sig, "worker-death:") || strings.HasPrefix(v.Replay.Space, "race-pass/")
+		if !selfEvident && os.Getenv("VERIF_NO_RECHECK") == "" {
 			okc := 0
 			for k := 0; k < 5; k++ {
 				cmd := exec.Command(exe, "replay", path)
